@@ -549,6 +549,13 @@ func richCerts() []*built {
 			}
 		}
 	}
+	// every character of the PrintableString alphabet (X.680 s41.4) in a PrintableString attribute, one certificate each,
+	// plus the two characters crypto/x509 tolerates beyond it; NumericString and IA5String at the ends of their alphabets
+	for _, ch := range "AZaz09 '()+,-./:=?*&" {
+		mk(fmt.Sprintf("name-printablestring-with-0x%02x", ch), pki.Tmpl{Subject: pki.Name{{{pki.OIDC, 0x13, "GB"}}, {{pki.OIDOU, 0x13, "Unit" + string(ch) + "42"}}, {{pki.OIDCN, 0x13, "p" + string(ch)}}}})
+	}
+	mk("name-numericstring-ends", pki.Tmpl{Subject: pki.Name{{{oidX121, 0x12, "0 9"}}, {{pki.OIDCN, 0x0c, "n"}}}})
+	mk("name-ia5string-ends", pki.Tmpl{Subject: pki.Name{{{oidEmail, 0x16, "\x01~\x7f@example.com"}}, {{pki.OIDCN, 0x0c, "i"}}}})
 	mk("unique-ids", pki.Tmpl{IssuerUID: []byte{0xaa, 0xbb}, Exts: []pki.Ext{pki.ExtSKI(skiBytes)}})
 	mk("eku-critical-any", pki.Tmpl{Exts: []pki.Ext{{OID: pki.OIDEKU, Critical: true, Value: der.Seq(der.OID(pki.OIDEKUAny...), der.OID(1, 3, 6, 1, 5, 5, 7, 3, 3), der.OID(1, 3, 6, 1, 5, 5, 7, 3, 4), der.OID(1, 3, 6, 1, 5, 5, 7, 3, 8))}}})
 	mk("ku-all-nine-bits", pki.Tmpl{Exts: []pki.Ext{{OID: pki.OIDKeyUsage, Critical: true, Value: der.BitString([]byte{0xff, 0x80}, 7)}}})
@@ -675,6 +682,71 @@ func richCRLs() []*built {
 	}
 	build("full", false)
 	build("delta", true)
+	return out
+}
+
+// generalNameOddities: certificates and CRLs whose GeneralNames carry every form of RFC 5280 s4.2.1.6 - also the ones
+// nobody uses (x400Address [3], ediPartyName [5]) - empty and non-empty, first / between / last, in every extension
+// that holds GeneralNames. No verdict is prescribed: they feed the totality and coherence oracles of every entry point.
+func generalNameOddities() []*built {
+	var out []*built
+	sub, iss := derNames(true)
+	signer := pki.LoadKey("p256-0")
+	dns := func(s string) []byte { return gn(2, []byte(s)) }
+	forms := map[string][]byte{
+		"othername": der.ImplicitCons(0, der.OID(1, 3, 6, 1, 4, 1, 311, 20, 2, 3), der.Explicit(0, der.UTF8("upn@example.com"))),
+		"x400-empty": der.ImplicitCons(3), "x400": der.ImplicitCons(3, der.Seq(der.UTF8("x"))),
+		"dirname":  der.ImplicitCons(4, sub.DER()),
+		"edi-empty": der.ImplicitCons(5), "edi": der.ImplicitCons(5, der.Explicit(1, der.UTF8("party"))),
+		"regid": gn(8, der.OIDContent(1, 3, 6, 1, 4, 1, 55555, 3)), "tag9": gn(9, []byte{1}), "tag3-primitive": gn(3, []byte{1, 2}),
+	}
+	var names []string
+	for n := range forms {
+		names = append(names, n)
+	}
+	sort.Strings(names)
+	this, next := time.Date(2030, 1, 1, 0, 0, 0, 0, time.UTC), time.Date(2030, 2, 1, 0, 0, 0, 0, time.UTC)
+	ext := func(crit bool, val []byte, oid ...int) []byte {
+		if crit {
+			return der.Seq(der.OID(oid...), der.Bool(true), der.OctetString(val))
+		}
+		return der.Seq(der.OID(oid...), der.OctetString(val))
+	}
+	for _, n := range names {
+		f := forms[n]
+		for li, list := range [][]byte{der.Seq(f), der.Seq(dns("a.example"), f, dns("b.example")), der.Seq(dns("a.example"), f), der.Seq(f, f)} {
+			tag := fmt.Sprintf("%s/layout%d", n, li)
+			// certificate: subjectAltName, issuerAltName, a CRL distribution point, name constraints
+			for _, where := range []struct {
+				n string
+				e pki.Ext
+			}{
+				{"san", pki.Ext{OID: pki.OIDSAN, Value: list}},
+				{"ian", pki.Ext{OID: []int{2, 5, 29, 18}, Value: list}},
+				{"crldp", pki.Ext{OID: oidCRLDP, Value: der.Seq(der.Seq(der.ImplicitCons(0, der.ImplicitCons(0, dns("a.example"), f))))}},
+				{"nc", pki.Ext{OID: oidNC, Critical: true, Value: der.Seq(der.ImplicitCons(0, der.Seq(f), der.Seq(dns("example.com"))))}},
+			} {
+				t := pki.Tmpl{Serial: []byte{0x33}, Issuer: iss, Subject: sub, NotBefore: pki.T0, NotAfter: this, Key: pki.LoadKey("p256-3"),
+					Exts: []pki.Ext{pki.ExtBasicConstraints(true, true), where.e}}
+				out = append(out, &built{DER: pki.Build(t, signer).DER, Kind: "raw", Name: "general-names:cert-" + where.n + ":" + tag, TBSOff: -1})
+			}
+			// CRL: issuerAltName, a revoked entry's certificateIssuer, the issuing distribution point
+			for _, where := range []string{"ian", "certissuer", "idp"} {
+				entries := der.Seq(der.Seq(der.IntMag(serials[0]), der.Time(this)))
+				exts := [][]byte{ext(false, der.Int(7), 2, 5, 29, 20)}
+				switch where {
+				case "ian":
+					exts = append(exts, ext(false, list, 2, 5, 29, 18))
+				case "certissuer":
+					entries = der.Seq(der.Seq(der.IntMag(serials[0]), der.Time(this), der.Seq(ext(true, list, 2, 5, 29, 29))))
+				case "idp":
+					exts = append(exts, ext(true, der.Seq(der.ImplicitCons(0, der.ImplicitCons(0, dns("a.example"), f))), 2, 5, 29, 28))
+				}
+				tbs := der.Seq(der.Int(1), signer.SigAlgDER(), iss.DER(), der.Time(this), der.Time(next), entries, der.Explicit(0, der.Seq(exts...)))
+				out = append(out, &built{DER: der.Seq(tbs, signer.SigAlgDER(), der.BitString(detSign(signer, tbs), 0)), Kind: "raw", Name: "general-names:crl-" + where + ":" + tag, TBSOff: -1})
+			}
+		}
+	}
 	return out
 }
 
